@@ -27,6 +27,9 @@ func Temporary(err error) bool {
 		return true
 	case errors.Is(err, io.ErrUnexpectedEOF):
 		return true
+	case errors.Is(err, io.EOF):
+		// the peer closed the connection before answering, e.g. a worker process that died
+		return true
 	}
 	return false
 }
